@@ -19,8 +19,8 @@ EXPLANATION = (
     "term modulo the rewrite theory of the engine and its operands carry the right roles (expected vs student, matrix vs "
     "eigenvalue, start vs stop): congruence (both sides reduced by the same modulus), between (non-real refused, closed "
     "bounds), eigenvector (zero vector refused, M.v against lambda.v), vector_span (parameter check, zero refused, "
-    "least-squares residual relative to the student's vector), vector_phase (in span AND equal norm), MatrixEntryComparer "
-    "(np.all over samples, fraction = matches/size, the four credit branches), LinearComparer (< 3 samples -> ConfigError, "
+    "least-squares residual relative to the student's vector), vector_phase (in span AND equal norm), EqualityComparer and MatrixEntryComparer (the configured transform on both sides; "
+    "np.all over samples, fraction = matches/size, the four credit branches), LinearComparer (< 3 samples -> ConfigError, "
     "zero_compatible_modes, error_calculators table, zero detection, credit iff fit error nearly zero, max by (credit, "
     "message), estimators called as (student, expected) and regressing y on x), is_nearly_zero (norm(x) <= tolerance, percentage relative to norm(reference)); (D2) in every comparer that "
     "validates shapes the validation dominates each statement that combines the student's value with the expected ones; "
@@ -30,7 +30,8 @@ EXPLANATION = (
     "pass (student, shape) in that order; (D4) numeric type-state: no ordering comparison is applied to a value derived "
     "from the student's evaluation that may still be complex-typed.")
 NOT_DECIDED = ("that the numeric tests realise the mathematical classes (least squares, tolerances, floating point); the fit-"
-               "error estimators' formulas beyond the orientation of their regressions; SumGrader's limit "
+               "error estimators' formulas beyond the orientation of their regressions; the rcond cut-off handed to lstsq (negative or >= 1 = machine precision; "
+               "a value in (0, 1) would truncate, no sound threshold); SumGrader's limit "
                "checks (C19); behaviour of author-supplied transforms.")
 ASSUMPTIONS = ["comparers are called as comparer(comparer_params_eval, student_eval, utils) by FormulaGrader",
                "np.isreal tests the value, not the type; np.real, abs, np.linalg.norm, len return real-typed values"]
@@ -49,6 +50,7 @@ def check(ctx):
     d1_eigenvector(ctx, idx)
     d1_span(ctx, idx)
     d1_phase(ctx, idx)
+    d1_equality(ctx, idx)
     d1_entry(ctx, idx)
     d1_linear(ctx, idx)
     d1_nearly_zero(ctx, idx)
@@ -132,6 +134,64 @@ class _FloorMod(ast.NodeTransformer):
 def floor_mod_normal_form(idx, fi, expr):
     from ..index import clone
     return _FloorMod(idx, fi).visit(clone(expr))
+
+
+def fold_sequence(idx, ci, node, depth=0):
+    """Element nodes of a literal / named (class attribute or module constant) tuple or list, concatenations included."""
+    if depth > 4:
+        raise AnalysisError('table expression nests too deeply')
+    if isinstance(node, (ast.Tuple, ast.List)):
+        return list(node.elts)
+    if isinstance(node, ast.Call) and nf.callee_name(node) in ('tuple', 'list') and len(node.args) == 1 and not node.keywords:
+        return fold_sequence(idx, ci, node.args[0], depth + 1)
+    if isinstance(node, ast.BinOp) and isinstance(node.op, ast.Add):
+        return fold_sequence(idx, ci, node.left, depth + 1) + fold_sequence(idx, ci, node.right, depth + 1)
+    if isinstance(node, ast.Name) or (isinstance(node, ast.Attribute) and isinstance(node.value, ast.Name)
+                                     and node.value.id in ('self', 'cls', ci.name)):
+        name = node.id if isinstance(node, ast.Name) else node.attr
+        k, v = idx.lookup_attr(ci, name)
+        if v is not None:
+            return fold_sequence(idx, ci, v, depth + 1)
+        vals = ci.module.assigns.get(name, [])
+        if len(vals) == 1:
+            return fold_sequence(idx, ci, vals[0], depth + 1)
+    raise AnalysisError('sequence `%s` of class %s cannot be folded to a literal' % (short(node), ci.name))
+
+
+def fold_table(idx, ci, node):
+    """(key node, value node) pairs of a dict given as a literal or by generating code: dict(zip(K, V)), dict([(k, v), ...]),
+    {k: v for k, v in zip(K, V)}, dict(k=v, ...)."""
+    if isinstance(node, ast.Dict):
+        if any(k is None for k in node.keys):
+            raise AnalysisError('dict literal with ** expansion')
+        return list(zip(node.keys, node.values))
+    if isinstance(node, ast.Call) and nf.callee_name(node) == 'dict' and isinstance(node.func, ast.Name):
+        pairs = []
+        if len(node.args) == 1:
+            a = node.args[0]
+            if isinstance(a, ast.Call) and nf.callee_name(a) == 'zip' and len(a.args) == 2:
+                ks, vs = fold_sequence(idx, ci, a.args[0]), fold_sequence(idx, ci, a.args[1])
+                if len(ks) != len(vs):
+                    raise AnalysisError('dict(zip(...)) of sequences of different length')
+                pairs = list(zip(ks, vs))
+            else:
+                for e in fold_sequence(idx, ci, a):
+                    if not (isinstance(e, (ast.Tuple, ast.List)) and len(e.elts) == 2):
+                        raise AnalysisError('dict([...]) entry `%s` is not a pair' % short(e))
+                    pairs.append((e.elts[0], e.elts[1]))
+        elif node.args:
+            raise AnalysisError('dict(...) form not recognised')
+        pairs += [(ast.Constant(value=k.arg), k.value) for k in node.keywords if k.arg is not None]
+        return pairs
+    if isinstance(node, ast.DictComp) and len(node.generators) == 1 and not node.generators[0].ifs:
+        g = node.generators[0]
+        if isinstance(g.iter, ast.Call) and nf.callee_name(g.iter) == 'zip' and len(g.iter.args) == 2 \
+                and isinstance(g.target, ast.Tuple) and len(g.target.elts) == 2 and all(isinstance(t, ast.Name) for t in g.target.elts) \
+                and is_name(node.key, g.target.elts[0].id) and is_name(node.value, g.target.elts[1].id):
+            ks, vs = fold_sequence(idx, ci, g.iter.args[0]), fold_sequence(idx, ci, g.iter.args[1])
+            if len(ks) == len(vs):
+                return list(zip(ks, vs))
+    raise AnalysisError('table `%s` of class %s is neither a dict literal nor a recognised generating form' % (short(node, 80), ci.name))
 
 
 def ret_paths(fi):
@@ -254,7 +314,7 @@ def zero_refusal(r, idx, fi, paths, student, construct, what):
                 if isinstance(g, ast.UnaryOp) and isinstance(g.op, ast.Not):
                     for pat in ZERO_TESTS:
                         b = nf.match(pat, g.operand)
-                        if b is not None and is_name(b.get('_S'), student) and p.leaf.kind == 'ret' and is_zero_result(p.leaf.expr):
+                        if b is not None and is_name(b.get('_S'), student) and p.leaf.kind == 'ret' and is_zero_result(resolve_result(idx, fi, p.leaf.expr) or p.leaf.expr):
                             inverted = p
         if inverted is not None:
             r.violation(construct, 'the zero-vector test is inverted: nonzero input is refused and the zero vector goes on to the comparison',
@@ -267,7 +327,7 @@ def zero_refusal(r, idx, fi, paths, student, construct, what):
                     expected='if utils.within_tolerance(0, np.linalg.norm(student_eval)): return a zero result')
         return
     p, g = found
-    if p.leaf.kind == 'ret' and is_zero_result(p.leaf.expr):
+    if p.leaf.kind == 'ret' and is_zero_result(resolve_result(idx, fi, p.leaf.expr) or p.leaf.expr):
         r.ok(construct, 'zero submission -> grade 0', lib.loc(fi, p.leaf.stmt))
     elif p.leaf.kind == 'raise':
         r.ok(construct, 'zero submission -> error', lib.loc(fi, p.leaf.stmt))
@@ -406,7 +466,7 @@ def d1_eigenvector(ctx, idx):
         M, L = names
         paths = ret_paths(fi)
         zero_refusal(r, idx, fi, paths, S, 'eigenvector_comparer: zero vector', 'satisfies M.0 = lambda.0')
-        finals = [p for p in paths if p.leaf.kind == 'ret' and not isinstance(p.leaf.expr, ast.Dict)]
+        finals = [p for p in paths if p.leaf.kind == 'ret' and resolve_result(idx, fi, p.leaf.expr) is None]
         if not finals:
             raise AnalysisError('eigenvector_comparer: no deciding return')
         for p in finals:
@@ -515,7 +575,7 @@ def d1_span(ctx, idx):
             absent(r, idx, 'vector_span_comparer: parameter check', 'the comparer parameters are no longer checked to be equal-length vectors',
                         fi.loc, expected='if not are_same_length_vectors(comparer_params_eval): raise')
         zero_refusal(r, idx, fi, paths, S, 'vector_span_comparer: zero vector', 'lies in every span (residual 0)')
-        finals = [p for p in paths if p.leaf.kind == 'ret' and not isinstance(p.leaf.expr, ast.Dict)]
+        finals = [p for p in paths if p.leaf.kind == 'ret' and resolve_result(idx, fi, p.leaf.expr) is None]
         if not finals:
             raise AnalysisError('vector_span_comparer: no deciding return')
         for p in finals:
@@ -617,9 +677,55 @@ def d1_phase(ctx, idx):
                            '(precedence slip: a single non-vector parameter is not refused); not a property violation')
 
 
+def transform_applications(expr):
+    return [c for c in ast.walk(expr) if isinstance(c, ast.Call) and nf.config_key(c.func) == 'transform']
+
+
+def transform_symmetry(r, idx, construct, expected_side, student_side, where):
+    """The configured transform is applied to the expected and to the student's value alike before they are compared."""
+    ne, ns = len(transform_applications(expected_side)), len(transform_applications(student_side))
+    if ne == ns and ne >= 1:
+        r.ok(construct, 'config[transform] applied to expected and student values', where)
+    elif ne != ns:
+        side, other = ('student\'s', 'expected') if ns < ne else ('expected', 'student\'s')
+        r.violation(construct, 'the configured transform is applied to the %s values but not to the %s ones: with any transform other '
+                    'than the identity a transformed value is compared with a raw one, so correct answers are graded wrong' % (other, side),
+                    where, expected='transform(expected) compared with transform(student)',
+                    found='%d application(s) on the expected side, %d on the student side' % (ne, ns))
+    else:
+        absent(r, idx, construct, 'the configured transform is applied to neither side: the transform option is ignored', where)
+
+
+def d1_equality(ctx, idx):
+    r = ctx.rule('D1.EQUALITY', 'EqualityComparer compares transform(expected) with transform(student) within tolerance', floor=2)
+    with r:
+        fi = idx.func(C + 'EqualityComparer.__call__')
+        P, S, U = roles(fi, 1)
+        finals = [p for p in ret_paths(fi) if p.leaf.kind == 'ret']
+        if not finals:
+            raise AnalysisError('EqualityComparer.__call__: no returning path')
+        for p in finals:
+            where = lib.loc(fi, p.leaf.stmt)
+            form = 'list of parameters' if any(nf.match('isinstance(_P, list)', g) is not None for g in p.guards) else 'bare parameter'
+            b = nf.match('_U.within_tolerance(_A, _B)', p.leaf.expr)
+            construct = 'EqualityComparer.__call__ [%s]: decision' % form
+            if b is None or not is_name(b['_U'], U):
+                r.undecided(construct, 'decision `%s` not recognised' % short(p.leaf.expr, 80), where)
+                continue
+            a_e, a_s = mentions(b['_A'], P) and not mentions(b['_A'], S), mentions(b['_B'], S) and not mentions(b['_B'], P)
+            if a_e and a_s:
+                r.ok(construct, 'within_tolerance(expected, student)', where)
+                transform_symmetry(r, idx, 'EqualityComparer.__call__ [%s]: transform on both sides' % form, b['_A'], b['_B'], where)
+            elif mentions(b['_A'], S) and not mentions(b['_A'], P) and mentions(b['_B'], P) and not mentions(b['_B'], S):
+                r.violation(construct, 'the student\'s value is passed as the reference argument of within_tolerance: a percentage tolerance '
+                            'is taken relative to the submission', where, expected='within_tolerance(expected, student)', found=short(p.leaf.expr, 80))
+            else:
+                r.undecided(construct, 'operands of `%s` are not recognisably (expected, student)' % short(p.leaf.expr, 80), where)
+
+
 # ----------------------------------------------------------------------------- D1 MatrixEntryComparer
 def d1_entry(ctx, idx):
-    r = ctx.rule('D1.ENTRY', 'MatrixEntryComparer: np.all over samples, fraction = matches/size, full / zero / proportional / flat credit', floor=7)
+    r = ctx.rule('D1.ENTRY', 'MatrixEntryComparer: np.all over samples, fraction = matches/size, full / zero / proportional / flat credit', floor=8)
     with r:
         fi = idx.func(C + 'MatrixEntryComparer.__call__')
         P, S, U = roles(fi, 1)
@@ -665,6 +771,7 @@ def d1_entry(ctx, idx):
                 t_ok = mentions(b2['_T'], S) and not mentions(b2['_T'], P)
                 if e_ok and t_ok and is_name(b2['_U'], U):
                     r.ok('MatrixEntryComparer: roles', 'within_tolerance(expected, student)', where)
+                    transform_symmetry(r, idx, 'MatrixEntryComparer: transform on both sides', b2['_E'], b2['_T'], where)
                 elif mentions(b2['_E'], S) and mentions(b2['_T'], P):
                     r.violation('MatrixEntryComparer: roles', 'the student\'s evaluations are passed as the reference argument of '
                                 'within_tolerance: percentage tolerances are taken relative to the submission', where)
@@ -706,7 +813,7 @@ def d1_entry(ctx, idx):
             if frac is not None and not check_fraction(frac, where):
                 continue
             seen.add(kind)
-            e = p.leaf.expr
+            e = resolve_result(idx, fi, p.leaf.expr) or p.leaf.expr
             d = dict_items(e)
             construct = 'MatrixEntryComparer: %s entries match' % {'all': 'all', 'none': 'no', 'proportional': 'some (proportional)',
                                                                     'flat': 'some (flat rate)'}[kind]
@@ -766,20 +873,24 @@ def d1_linear(ctx, idx):
         else:
             a, x = guard
             binds = {}
-            res = nf.classify(['len(_S) < 3'], a.test, binds)
+            test_i = lib.inline_locals(a.test, call.node)
+            res = nf.classify(['len(_S) < 3'], test_i, binds)
             cname = nf.exc_class_name(x.exc) if x.exc is not None else None
             if res == nf.MATCH and (is_name(binds['_S'], S) or is_name(binds['_S'], P)):
                 r.check(cname == 'ConfigError', 'LinearComparer.__call__: sample floor', 'len < 3 -> ConfigError',
                         'fewer than three samples raise %s instead of ConfigError' % cname, lib.loc(call, x), expected='ConfigError', found=cname)
             elif isinstance(res, tuple):
                 r.violation('LinearComparer.__call__: sample floor', '%s: the minimum number of samples is no longer three' % res[1],
-                            lib.loc(call, a), expected='len(student_evals) < 3', found=short(a.test))
+                            lib.loc(call, a), expected='len(student_evals) < 3', found=short(test_i))
             else:
-                r.undecided('LinearComparer.__call__: sample floor', 'guard `%s` not recognised' % short(a.test), lib.loc(call, a))
+                r.undecided('LinearComparer.__call__: sample floor', 'guard `%s` not recognised' % short(test_i), lib.loc(call, a))
         # (b) tables
         k, zc = idx.lookup_attr(ci, 'zero_compatible_modes')
         k2, am = idx.lookup_attr(ci, 'all_modes')
-        zcv, amv = nf.const_value(zc) if zc is not None else None, nf.const_value(am) if am is not None else None
+        zcv = [nf.const_value(x) for x in fold_sequence(idx, ci, zc)] if zc is not None else None
+        amv = [nf.const_value(x) for x in fold_sequence(idx, ci, am)] if am is not None else None
+        zcv = tuple(zcv) if zcv is not None and all(isinstance(x, str) for x in zcv) else None
+        amv = tuple(amv) if amv is not None and all(isinstance(x, str) for x in amv) else None
         if zcv is None or amv is None:
             raise AnalysisError('LinearComparer: mode tables are not literals')
         r.check(set(zcv) == {'equals', 'offset'}, 'LinearComparer.zero_compatible_modes', "('equals', 'offset')",
@@ -789,10 +900,11 @@ def d1_linear(ctx, idx):
         r.check(set(amv) == {'equals', 'proportional', 'offset', 'linear'}, 'LinearComparer.all_modes', 'four relations',
                 'all_modes is %r: a configured relation is never checked' % (amv,), lib.mloc(ci.module, am))
         k3, ec = idx.lookup_attr(ci, 'error_calculators')
-        if not isinstance(ec, ast.Dict):
-            raise AnalysisError('LinearComparer.error_calculators is not a dict literal')
+        if ec is None:
+            raise AnalysisError('LinearComparer.error_calculators not found')
+        pairs = fold_table(idx, ci, ec)
         got = {}
-        for kk, vv in zip(ec.keys, ec.values):
+        for kk, vv in pairs:
             if not (isinstance(kk, ast.Constant) and isinstance(vv, ast.Name)):
                 raise AnalysisError('LinearComparer.error_calculators: entry `%s` not recognised' % short(vv))
             kind, obj = idx.resolve_name(ci.module, vv.id)
@@ -1287,21 +1399,95 @@ def eval_guard(g, env, ctxinfo=None):
     return None
 
 
-def leaf_kind(leaf, errname):
+def resolve_result(idx, fi, expr, depth=0):
+    """A result expression as a dict literal node, looking through helpers that build it (f(msg)), copies of constants
+    (dict(C), C.copy(), copy.copy(C), dict(C, msg=...), {**C, 'msg': ...}) and names of locals / class / module constants.
+    None when it cannot be resolved."""
+    if depth > 4 or expr is None:
+        return None
+    if isinstance(expr, ast.Dict):
+        if all(k is not None for k in expr.keys):
+            return expr
+        keys, vals = [], []
+        for k, v in zip(expr.keys, expr.values):
+            if k is None:
+                base = resolve_result(idx, fi, v, depth + 1)
+                if base is None:
+                    return None
+                keys += base.keys
+                vals += base.values
+            else:
+                keys.append(k)
+                vals.append(v)
+        merged = {}
+        for k, v in zip(keys, vals):
+            if not isinstance(k, ast.Constant):
+                return None
+            merged[k.value] = (k, v)
+        return ast.Dict(keys=[k for k, _ in merged.values()], values=[v for _, v in merged.values()])
+    if isinstance(expr, ast.Name):
+        vals = lib.assigned_value(fi.node, expr.id) if hasattr(fi, 'node') else []
+        if len(vals) == 1:
+            return resolve_result(idx, fi, vals[0], depth + 1)
+        if not vals:
+            if getattr(fi, 'cls', None) is not None:
+                k, v = idx.lookup_attr(fi.cls, expr.id)
+                if v is not None:
+                    return resolve_result(idx, fi, v, depth + 1)
+            mv = fi.module.assigns.get(expr.id, [])
+            if len(mv) == 1:
+                return resolve_result(idx, fi, mv[0], depth + 1)
+        return None
+    if isinstance(expr, ast.Attribute) and isinstance(expr.value, ast.Name) and getattr(fi, 'cls', None) is not None \
+            and expr.value.id in ('self', 'cls', fi.cls.name):
+        k, v = idx.lookup_attr(fi.cls, expr.attr)
+        return resolve_result(idx, fi, v, depth + 1) if v is not None else None
+    if isinstance(expr, ast.Call):
+        cn = nf.callee_name(expr)
+        if cn in ('copy', 'deepcopy') and isinstance(expr.func, ast.Attribute) and not expr.args:
+            return resolve_result(idx, fi, expr.func.value, depth + 1)
+        if cn in ('copy', 'deepcopy') and len(expr.args) == 1:
+            return resolve_result(idx, fi, expr.args[0], depth + 1)
+        if cn == 'dict' and isinstance(expr.func, ast.Name) and len(expr.args) <= 1:
+            base = resolve_result(idx, fi, expr.args[0], depth + 1) if expr.args else ast.Dict(keys=[], values=[])
+            if base is None or any(k.arg is None for k in expr.keywords):
+                return None
+            merged = {k.value: (k, v) for k, v in zip(base.keys, base.values) if isinstance(k, ast.Constant)}
+            for k in expr.keywords:
+                merged[k.arg] = (ast.Constant(value=k.arg), k.value)
+            return ast.Dict(keys=[k for k, _ in merged.values()], values=[v for _, v in merged.values()])
+        cases = expr_cases(idx, fi, expr)
+        if cases is not None and len(cases) == 1 and not cases[0][0] and cases[0][1] is not expr:
+            return resolve_result(idx, fi, cases[0][1], depth + 1)
+    return None
+
+
+def leaf_kind(leaf, errname, idx=None, fi=None):
     if leaf.kind == 'raise':
         if leaf.expr is None or is_name(leaf.expr, errname):
             return 'raise'
         return 'raise-other:%s' % nf.exc_class_name(leaf.expr)
     if leaf.kind == 'ret':
-        d = dict_items(leaf.expr)
-        if d is not None and is_zero_result(leaf.expr):
+        e = leaf.expr
+        lit = resolve_result(idx, fi, e) if idx is not None else (e if isinstance(e, ast.Dict) else None)
+        if lit is None:
+            if isinstance(e, ast.Constant):
+                return 'ret-other'
+            return 'unknown'
+        d = dict_items(lit)
+        if is_zero_result(lit):
             msg = d.get('msg')
             if msg is None or (isinstance(msg, ast.Constant) and msg.value == ''):
                 return 'zero-silent'
             if errname and mentions(msg, errname):
                 return 'zero-message'
-            return 'zero-othermsg'
-        return 'ret-other'
+            if isinstance(msg, ast.Constant) or not lib.names_in(msg):
+                return 'zero-othermsg'
+            return 'unknown'
+        g = d.get('grade_decimal')
+        if g is None or isinstance(g, ast.Constant):
+            return 'ret-other'
+        return 'unknown'
     return 'fall'
 
 
@@ -1382,7 +1568,10 @@ def d3_policy(ctx, idx):
                             if unknown or len(taken) != 1:
                                 verdict = ('und', lib.loc(fi, h))
                                 break
-                            got = leaf_kind(taken[0].leaf, h.name)
+                            got = leaf_kind(taken[0].leaf, h.name, idx, fi)
+                            if got == 'unknown':
+                                verdict = ('und', lib.loc(fi, taken[0].leaf.stmt or h))
+                                break
                             where = lib.loc(fi, taken[0].leaf.stmt or h)
                             via = 'handled by `except %s`' % short(h.type) if h.type is not None else 'handled by the bare except'
                         if got != want:
@@ -1855,6 +2044,14 @@ MUTANTS = [
            "        transform = self.config['transform']\n        expected_evals = [transform(params[0]) for params in comparer_params_evals]\n        student_evals = [transform(x) for x in student_evals]\n        self.validate(expected_evals, student_evals, utils)\n\n", 'D2'),
     Mutant('equality-validation-of-transformed-values', CMP, "        self.validate(expected_eval, student_eval, utils)\n\n        transform = self.config['transform']\n        expected_eval = transform(expected_eval)\n        student_eval = transform(student_eval)\n",
            "        transform = self.config['transform']\n        expected_eval = transform(expected_eval)\n        student_eval = transform(student_eval)\n        self.validate(expected_eval, student_eval, utils)\n", 'D2'),
+    Mutant('linear-generated-estimator-table-misaligned', LIN, "    error_calculators = {\n        'equals': get_equals_fit_error,\n        'proportional': get_proportional_fit_error,\n        'offset': get_offset_fit_error,\n        'linear': get_linear_fit_error,\n    }",
+           "    error_calculators = dict(zip(all_modes, (\n        get_equals_fit_error,\n        get_offset_fit_error,\n        get_proportional_fit_error,\n        get_linear_fit_error,\n    )))", 'D1'),
+    Mutant('linear-floor-local-constant-two', LIN, "        if len(student_evals) < 3:\n            msg = 'Cannot perform linear comparison with less than 3 samples'",
+           "        min_samples = 2\n        if len(student_evals) < min_samples:\n            msg = 'Cannot perform linear comparison with less than 3 samples'", 'D1'),
+    Mutant('sweep-entry-student-transform-deleted', CMP, "        student_evals = [transform(x) for x in student_evals]\n        vec_within_tol", "        vec_within_tol", 'D1'),
+    Mutant('entry-expected-transform-deleted', CMP, "        expected_evals = [transform(x) for x in expected_evals]\n", "", 'D1'),
+    Mutant('equality-student-transform-deleted', CMP, "        student_eval = transform(student_eval)\n\n        return utils.within_tolerance", "        return utils.within_tolerance", 'D1'),
+    Mutant('equality-reference-is-student', CMP, "        return utils.within_tolerance(expected_eval, student_eval)", "        return utils.within_tolerance(student_eval, expected_eval)", 'D1'),
     Mutant('linear-validation-removed', LIN, "            utils.validate_shape(student_evals[0], shape)", "            pass", 'D2'),
     Mutant('nearly-zero-strict', MF, "    return np.linalg.norm(x) <= tolerance", "    return np.linalg.norm(x) < tolerance", 'D1'),
     Mutant('nearly-zero-relative-to-itself', MF, "        tolerance = np.linalg.norm(reference) * percentage_as_number(tolerance)",
@@ -1966,5 +2163,14 @@ BENIGN = [
            "def _zero_credit(msg):\n    return {'ok': False, 'grade_decimal': 0, 'msg': msg}\n"),
     Benign('entry-transform-fetched-before-validation', CMP, "        expected_evals = [params[0] for params in comparer_params_evals]\n        self.validate(expected_evals, student_evals, utils)\n\n        transform = self.config['transform']\n        expected_evals = [transform(x) for x in expected_evals]\n",
            "        transform = self.config['transform']\n        raw_expected = [params[0] for params in comparer_params_evals]\n        self.validate(raw_expected, student_evals, utils)\n        expected_evals = [transform(x) for x in raw_expected]\n"),
+    Benign('linear-floor-through-local-constant', LIN, "        if len(student_evals) < 3:\n            msg = 'Cannot perform linear comparison with less than 3 samples'\n            raise ConfigError(msg)",
+           "        min_samples = 3\n        if len(student_evals) < min_samples:\n            raise ConfigError('Cannot perform linear comparison with less than %d samples' % min_samples)"),
+    Benign('linear-estimator-table-generated', LIN, "    error_calculators = {\n        'equals': get_equals_fit_error,\n        'proportional': get_proportional_fit_error,\n        'offset': get_offset_fit_error,\n        'linear': get_linear_fit_error,\n    }",
+           "    error_calculators = dict(zip(all_modes, (\n        get_equals_fit_error,\n        get_proportional_fit_error,\n        get_offset_fit_error,\n        get_linear_fit_error,\n    )))"),
+    Benign('policy-zero-result-from-constant-copies', MG,
+           "        except ShapeError as err:\n            if self.config['suppress_matrix_messages']:\n                return {'ok': False, 'msg': '', 'grade_decimal': 0}\n            elif self.config['shape_errors']:\n                raise\n            else:\n                return {'ok': False, 'msg': str(err), 'grade_decimal': 0}\n",
+           "        except ShapeError as err:\n            silent = {'ok': False, 'msg': '', 'grade_decimal': 0}\n            if self.config['suppress_matrix_messages']:\n                return dict(silent)\n            elif self.config['shape_errors']:\n                raise\n            else:\n                return dict(silent, msg=str(err))\n"),
+    Benign('equality-transform-inlined', CMP, "        transform = self.config['transform']\n        expected_eval = transform(expected_eval)\n        student_eval = transform(student_eval)\n\n        return utils.within_tolerance(expected_eval, student_eval)",
+           "        return utils.within_tolerance(self.config['transform'](expected_eval), self.config['transform'](student_eval))"),
     Benign('eigen-log-statement', CMP, "    expected = eigenvalue * student_eval\n    actual = matrix * student_eval\n", "    expected = eigenvalue * student_eval\n    actual = matrix * student_eval\n    _unused = len(comparer_params_eval)\n"),
 ]
